@@ -1,8 +1,13 @@
 package checks
 
 import (
+	"context"
 	"fmt"
+	ab2 "github.com/volatiletech/authboss/v3/oauth2"
+	xoauth2 "golang.org/x/oauth2"
+	"io"
 	"math/rand"
+	"net/http"
 	"strings"
 
 	"github.com/volatiletech/authboss/v3"
@@ -218,6 +223,53 @@ func c14Codec(c *RunCtx, r *rand.Rand, n int) {
 	c.Stats.Sig(fmt.Sprintf("codec/%d-pairs", n))
 }
 
+// c14Details: the library's own FindUserDetails functions for Google and Facebook against a provider
+// "me" endpoint that reports account ids in every JSON spelling a provider might use: strings (digits of
+// any length, with leading zeros, blank), bare numbers (small; neighbours beyond 2^53, where a float64
+// cannot tell them apart; 1e3-style). Whatever is not refused must be exactly the reported id.
+func c14Details(c *RunCtx) {
+	type rep struct{ json, want string }
+	var reps []rep
+	for _, id := range []string{"1001", "0001001", "10000000000000000", "10000000000000001", "9007199254740993", "18446744073709551617", "abc-DEF", " 17 ", ""} {
+		reps = append(reps, rep{fmt.Sprintf("%q", id), id})
+	}
+	for _, n := range []string{"1001", "9007199254740992", "9007199254740993", "10000000000000000", "10000000000000001", "10000000000000002", "18446744073709551617", "-5"} {
+		reps = append(reps, rep{n, n})
+	}
+	for name, fn := range map[string]func(context.Context, xoauth2.Config, *xoauth2.Token) (map[string]string, error){"google": ab2.GoogleUserDetails, "facebook": ab2.FacebookUserDetails} {
+		seen := map[string]string{}
+		for _, rp := range reps {
+			body := `{"id":` + rp.json + `,"email":"x@y.test","name":"N"}`
+			ctx := context.WithValue(context.Background(), xoauth2.HTTPClient, &http.Client{Transport: roundTripFunc(func(*http.Request) (*http.Response, error) {
+				return &http.Response{StatusCode: 200, Status: "200", Header: http.Header{"Content-Type": []string{"application/json"}}, Body: io.NopCloser(strings.NewReader(body))}, nil
+			})})
+			got, err := fn(ctx, xoauth2.Config{}, &xoauth2.Token{AccessToken: "t"})
+			c.Stats.Evaluations++
+			if err != nil {
+				c.Stats.Count("details:refused")
+				continue
+			}
+			uid := got[ab2.OAuth2UID]
+			c.Stats.Count("details:accepted")
+			if uid != rp.want {
+				v := vio("C14", "provider-details-report-another-uid|"+name, "the provider reported id %s, %sUserDetails hands on uid %q", rp.json, name, uid)
+				c.Stats.Violations = append(c.Stats.Violations, sim.VioRec{Violation: *v})
+				return
+			}
+			if other, dup := seen[uid]; dup && other != rp.want {
+				v := vio("C14", "provider-details-collision|"+name, "provider ids %s and %s both become uid %q", other, rp.json, uid)
+				c.Stats.Violations = append(c.Stats.Violations, sim.VioRec{Violation: *v})
+				return
+			}
+			seen[uid] = rp.want
+		}
+	}
+}
+
+type roundTripFunc func(*http.Request) (*http.Response, error)
+
+func (f roundTripFunc) RoundTrip(r *http.Request) (*http.Response, error) { return f(r) }
+
 var c14Templates = []sim.Template{
 	{Name: "callback-in-half-authed-session", F: func(s *sim.Sim) []*sim.Action {
 		if !s.RememberActive() {
@@ -249,12 +301,13 @@ var c14Profile = &sim.Profile{
 func init() {
 	register(&Check{
 		ID: "C14", Level: "exploration",
-		Rule:  "interleaved OAuth2 starts and callbacks over 3 browsers x 2 providers; state strings: the session's own, empty, prefix, extended, case-flipped, another browser's, spent, garbage; codes: valid, bogus, minted by the other provider, provider error; provider-reported uids from a hostile corpus (';', ';;', 'oauth2;;alpha;;x', NUL, non-ASCII, 4 KB, blank). The fake provider's tables are the ground truth of which identity was reported. Oracle: a callback touches users or sets uid only if its state equals the value issued to THIS browser by a start request and not yet matched; a matching callback leaves no state behind; on success uid == Make(provider-of-callback, reported uid) and the stored user carries that pair; provider errors and failed exchanges log nobody in. Plus a codec sweep: generated (provider,uid) pairs (provider from [a-z0-9_-]+) never collide and Parse(Make()) never yields a different pair. distinct_nontrivial = distinct (state class, code class, session state, uid class, error-handler kind, uid outcome, diff size) signatures.",
+		Rule:  "interleaved OAuth2 starts and callbacks over 3 browsers x 2 providers; state strings: the session's own, empty, prefix, extended, case-flipped, another browser's, spent, garbage; codes: valid, bogus, minted by the other provider, provider error; provider-reported uids from a hostile corpus (';', ';;', 'oauth2;;alpha;;x', NUL, non-ASCII, 4 KB, blank). The fake provider's tables are the ground truth of which identity was reported. Oracle: a callback touches users or sets uid only if its state equals the value issued to THIS browser by a start request and not yet matched; a matching callback leaves no state behind; on success uid == Make(provider-of-callback, reported uid) and the stored user carries that pair; provider errors and failed exchanges log nobody in. Plus the library's own Google/Facebook FindUserDetails functions against a 'me' endpoint reporting ids as strings and as bare JSON numbers (incl. neighbours beyond 2^53): what is not refused is exactly the reported id. Plus a codec sweep: generated (provider,uid) pairs (provider from [a-z0-9_-]+) never collide and Parse(Make()) never yields a different pair. distinct_nontrivial = distinct (state class, code class, session state, uid class, error-handler kind, uid outcome, diff size) signatures.",
 		Units: func(t string) int { return tierN(t, 640, 30000) },
 		Run: func(c *RunCtx, unit int) {
 			r := Rng(c.Seed, "C14", unit)
 			if unit%40 == 0 {
 				c14Codec(c, r, 5000)
+				c14Details(c)
 			}
 			cfg := randomCfg(r, "oauth2", "logout")
 			cfg.TwoFA = nil
